@@ -390,7 +390,8 @@ def fmtFloatF (x : F64) : Bytes :=
       sign ++ layoutF ds pt
 
 /-- `fmt.Sprintf("%v", x)` for a float64 (`%g` with the shortest digits, exponent form when the
-    decimal exponent is < -4 or ≥ 21). -/
+    decimal exponent is < -4 or ≥ 6: strconv's `%g` with precision -1 uses eprec = 6, so 31536000 prints
+    as `3.1536e+07`). -/
 def fmtFloatV (x : F64) : Bytes :=
   if x.isNaN then bs "NaN"
   else if x.isInf then (if x.neg? then bs "-Inf" else bs "+Inf")
@@ -400,7 +401,7 @@ def fmtFloatV (x : F64) : Bytes :=
     else
       let (ds, pt) := shortestDigits x
       let e : Int := pt - 1
-      if e < -4 || e ≥ 21 then
+      if e < -4 || e ≥ 6 then
         let mant := match ds with
           | [] => [48]
           | [d] => [d]
@@ -423,6 +424,23 @@ def fmtFixed3 (x : F64) : Bytes :=
     let frac := natDigits (r % 1000)
     sign ++ natDigits (r / 1000) ++ [46] ++ zerosB (3 - frac.length) ++ frac
 
+/-- `strconv.underscoreOK` on an unsigned token: underscores only between digits (a base prefix `0x` / `0o` /
+    `0b` counts as a digit).  `saw`: 0 = beginning, 1 = digit or base prefix, 2 = underscore, 3 = anything else. -/
+def underscoreOKGo (hex : Bool) : Bytes → Nat → Bool
+  | [], saw => saw != 2
+  | c :: tl, saw =>
+    if isDigitB c || (hex && 97 ≤ (c ||| 32) && (c ||| 32) ≤ 102) then underscoreOKGo hex tl 1
+    else if c == 95 then (if saw != 1 then false else underscoreOKGo hex tl 2)
+    else if saw == 2 then false
+    else underscoreOKGo hex tl 3
+
+def underscoreOK (s : Bytes) : Bool :=
+  match s with
+  | 48 :: x :: tl =>
+    let lx := x ||| 32
+    if lx == 98 || lx == 111 || lx == 120 then underscoreOKGo (lx == 120) tl 1 else underscoreOKGo false s 0
+  | _ => underscoreOKGo false s 0
+
 /-- `parser.number`: `strconv.ParseInt(s, 0, 64)` falling back to `strconv.ParseFloat(s, 64)`, on a
     token the lexer produced as NUMBER (digits, `.`, `_`, exponent, `0x` prefix, or the words inf/nan).
     `none` = "error parsing number". -/
@@ -430,6 +448,8 @@ def parseNumber (tok : Bytes) : Option F64 :=
   let lw := lowerBs tok
   if lw = bs "inf" then some F64.pinf
   else if lw = bs "nan" then some F64.nan
+  -- the lexer lets `1_ `, `0x__1` through as NUMBER; both ParseInt and ParseFloat then fail in underscoreOK
+  else if tok.contains 95 && !underscoreOK tok then none
   else
     let s := tok.filter (· != 95)
     match s with
